@@ -16,12 +16,31 @@ Import ListNotations.
 Section Chunking.
 Context {A : Type}.
 
-(* utils.py:101-124.  chunk_size = n_tasks / n_splits is a float in the code and an exact rational here
-   (K compares the chunk boundaries with mpire's on every (n, n_splits) that is used);
-   loop:  chunk = arr[done : done + max(1, ceil(cur))];  stop if empty;  yield;
-          cur = (cur + chunk_size) - ceil(cur).
+(* utils.py:101-124:
+     chunk_size = n_tasks / n_splits                                  (a FLOAT)
+     loop:  chunk = arr[done : done + max(1, math.ceil(cur))];  stop if empty;  yield;
+            cur = (cur + chunk_size) - math.ceil(cur)                 (float arithmetic)
    The branch "n_elements_returned + len(chunk) > iterable_len" cannot be taken for an array of length
-   iterable_len.  [fuel]: every iteration consumes at least one element, length xs + 1 iterations suffice. *)
+   iterable_len.  The float carry is outside the model: all it contributes is the sequence of integers
+   math.ceil(cur) of the successive iterations, an ARBITRARY function [ceil_at : nat -> Z] here (the harness
+   recomputes that sequence with the same float expressions and compares the resulting chunks with mpire's).
+   [fuel]: every iteration consumes at least one element, so length xs + 1 iterations suffice. *)
+Fixpoint chunk_by (fuel : nat) (ceil_at : nat -> Z) (i : nat) (xs : list A) : list (list A) :=
+  match fuel with
+  | O => []
+  | S fuel' =>
+    let c := Z.to_nat (Z.max 1 (ceil_at i)) in
+    match firstn c xs with
+    | [] => []
+    | chunk => chunk :: chunk_by fuel' ceil_at (S i) (skipn c xs)
+    end
+  end.
+
+Definition chunk_tasks_by (ceil_at : nat -> Z) (xs : list A) : list (list A) :=
+  chunk_by (S (length xs)) ceil_at 0 xs.
+
+(* the same loop with the carry computed exactly over Q (what the float code approximates; the two differ
+   where the exact carry is an integer and the float one is a rounding error above it) *)
 Fixpoint chunk_loop (fuel : nat) (chunk_size cur : Q) (xs : list A) : list (list A) :=
   match fuel with
   | O => []
@@ -71,6 +90,23 @@ Definition collect (delivered : list (nat * list B)) : list B :=
 Definition parmap (pool : (list A -> list B) -> list (nat * list A) -> list (nat * list B))
            (n_jobs : positive) (xs : list A) : list B :=
   collect (pool computation (tag (chunk_tasks xs (4 * n_jobs)))).
+
+(* the same with the float carry: chunk sizes from an arbitrary ceil sequence *)
+Definition parmap_by (pool : (list A -> list B) -> list (nat * list A) -> list (nat * list B))
+           (ceil_at : nat -> Z) (xs : list A) : list B :=
+  collect (pool computation (tag (chunk_tasks_by ceil_at xs))).
+
+(* the error path.  map announces the number of tasks before anything is chunked:
+     iterable_len = get_n_chunks(...) = min(n_tasks, math.ceil(n_tasks / chunk_size)),  chunk_size = n_tasks / n_splits
+   (utils.py:154-182, FLOAT arithmetic: an arbitrary number [predicted] here); imap_unordered creates the result
+   iterator with that length (pool.py:737) and, once every chunk has been submitted, calls
+   imap_iterator.set_length(<number of chunks actually produced>) (pool.py:776), which raises
+   ValueError("Length of iterator has already been set to ..., but is now set to ...") when the two differ
+   (async_result.py:197-208).  None = that ValueError. *)
+Definition parmap_checked (pool : (list A -> list B) -> list (nat * list A) -> list (nat * list B))
+           (ceil_at : nat -> Z) (predicted : nat) (xs : list A) : option (list B) :=
+  let chunks := chunk_tasks_by ceil_at xs in
+  if Nat.eqb predicted (length chunks) then Some (collect (pool computation (tag chunks))) else None.
 
 Definition serial (xs : list A) : list B := map f xs.
 
